@@ -328,3 +328,51 @@ func VerifC02_sizedrows() {
 	vfAssert(t.NColumns() == want, "column-count")
 	vfObserveInt("ncols", t.NColumns())
 }
+
+// VerifC02_verywide: addressing holds for rows of several hundred cells (positions beyond one byte).
+func VerifC02_verywide() {
+	n := []int{260, 300, 520}[vfChoice("n", 3)]
+	t := New()
+	t.AddRowItems("first")
+	var r *Row
+	switch vfChoice("how", 3) {
+	case 0:
+		items := make([]interface{}, n)
+		for i := range items {
+			items[i] = "w"
+		}
+		t.AddRowItems(items...)
+		r = t.AllRows()[1]
+	case 1:
+		r = t.AppendNewRow()
+		for i := 0; i < n; i++ {
+			r.Add(NewCell("w"))
+		}
+	case 2:
+		r = NewRow()
+		for i := 0; i < n; i++ {
+			r.Add(NewCell("w"))
+		}
+		t.AddRow(r)
+	}
+	vfAssert(t.NColumns() == n, "column-count")
+	cells := r.Cells()
+	vfAssert(len(cells) == n, "row-cell-count")
+	if len(cells) != n {
+		return
+	}
+	for _, c := range []int{1, 2, 127, 128, 129, 255, 256, 257, 258, n - 1, n} {
+		loc := cells[c-1].Location()
+		vfAssert(vfAnd(loc.Row == 2, loc.Column == c), "cell-location-column")
+		got, err := t.CellAt(CellLocation{Row: 2, Column: c})
+		vfAssert(err == nil, "lookup-succeeds-only-in-range")
+		if err == nil {
+			gl := got.Location()
+			vfAssert(vfAnd(gl.Row == 2, gl.Column == c), "found-cell-reports-its-location")
+		}
+	}
+	_, err := t.CellAt(CellLocation{Row: 2, Column: n + 1})
+	vfAssert(err != nil, "lookup-fails-only-out-of-range")
+	vfAssert(t.Column(n) != nil, "column-handle-for-every-column")
+	vfAssert(t.Column(n+1) == nil, "column-handle-only-in-range")
+}
